@@ -97,6 +97,25 @@ def run_registry(ctx):
     ctx.cov["transitions"] += r.generated
 
 
+def run_fault_obj(ctx):
+    """FaultObj.tla: response() / dump() words on a real Fault object (sticky truthy id, per-call version, untouched Config)."""
+    ctx.model("FaultObj", "FaultObj.cfg", workers=2, timeout=300)
+    tf = ctx.path("growth_fault.json")
+    common.run_py(os.path.join(VERIF, "harness", "faultobj_run.py"), ["run", tf, ctx.seed, 200 if ctx.tier == "quick" else 4000])
+    r = common.tlc("FaultObjTrace", "FaultObjTrace.cfg", env={"TRACE_FILE": tf}, workers=1, timeout=900)
+    if r.errors or not r.finished:
+        raise common.MachineryError("FaultObjTrace did not complete:\n" + "\n".join(r.errors)[:1500])
+    traces = json.load(open(tf))
+    bad = {}
+    for m in re.finditer(r'<<"GROWTHFAIL", (\d+), "(\w+)", (\d+)>>', r.out):
+        bad.setdefault(int(m.group(1)), int(m.group(3)))
+    for t, l in list(bad.items())[:5]:
+        print("GROWTH-FINDING (not a listed property): FaultObj.tla does not explain call %d of a recorded word: %s" % (l, json.dumps(traces[t - 1]["ev"][l - 1])))
+    ctx.cov.setdefault("growth", {})["fault_object"] = {"words": len(traces), "calls": sum(len(t["ev"]) for t in traces),
+                                                       "mismatching_words": len(bad), "trace_states": r.distinct}
+    ctx.cov["transitions"] += r.generated
+
+
 def safely(ctx, fn):
     """Growth runs never decide a listed property: a failure of theirs is reported, it does not change the verdict."""
     try:
